@@ -70,6 +70,25 @@ def _tt(t):
 
 # ------------------------------------------------------------------ generation
 def gen(rng, i, tier):
+    """a few attempts to get a case whose templates contain slots (the others are kept with probability 1/4)"""
+    for _ in range(6):
+        case = _gen(rng, i, tier)
+        if _useful(case) or rng.random() < 0.25:
+            break
+    return case
+
+
+def _useful(case):
+    tt = TypedTerms([(n, _tt(t)) for n, t in case["prims"]], {}, _tt(case["request"]), case["max_depth"], case["min_var"],
+                    [_tt(t) for t in case["const_types"]], case["recursive"])
+    if not 2 <= tt.count() <= 5000:
+        return False
+    keys = [_tt(e[0]) for e in case["table"]]
+    terms = tt.terms()
+    return any(a for _, a in terms) and any(s[1] in keys for t in terms for s in _slots(t))
+
+
+def _gen(rng, i, tier):
     syn = G.random_syntax(rng)
     req = G.random_request(rng, syn)
     bases = syn["bases"]
@@ -95,7 +114,7 @@ def gen(rng, i, tier):
     }
     # the table: 0/1/2/3 (4 rarely) values per type; types without slot; a slot type left out; duplicates
     r = rng.random()
-    mode = "plain" if r < 0.62 else "empty" if r < 0.74 else "dups" if r < 0.82 else "twice" if r < 0.90 else "missing"
+    mode = "plain" if r < 0.55 else "empty" if r < 0.67 else "dups" if r < 0.77 else "twice" if r < 0.88 else "missing"
     table = []
     for t in const_types:
         if mode == "missing" and rng.random() < 0.5:
